@@ -538,6 +538,36 @@ void checkConservation(Reporter& rep, const Batch& b, const std::vector<std::vec
                          fi, it.packet, it.seg, it.offset, it.length, k, m[wire::kMsgHeader + k], pk.payload[it.offset + k]);
                 rep.v("C07", it.seg == wire::SEG_NONE ? "C07:payload-bytes-altered" : "C07:segment-bytes-not-the-packets-slice", buf);
             }
+            // C12: the 16 message header bytes the encoder put on the wire follow the layout for the packet's message type:
+            // timestamp, id word (data: interface id; status / vendor: two reserved zero bytes + vendor id; anything else: four
+            // zero bytes), flags with the segment bits the layout calls for, payload type, length of this message
+            {
+                Bytes e;
+                wire::put64(e, pk.ts);
+                if (pk.msgType == wire::MT_DATA)
+                    wire::put32(e, pk.ifid);
+                else if (pk.msgType == wire::MT_STATUS || pk.msgType == wire::MT_VENDOR)
+                {
+                    wire::put16(e, 0);
+                    wire::put16(e, pk.vendor);
+                }
+                else
+                    wire::put32(e, 0);
+                wire::put8(e, static_cast<uint8_t>((pk.flags & ~wire::CF_SEG) | it.seg));
+                wire::put8(e, pk.ptype);
+                wire::put16(e, static_cast<uint16_t>(it.length));
+                if (memcmp(m, e.data(), wire::kMsgHeader) != 0)
+                {
+                    size_t k = 0;
+                    while (k < wire::kMsgHeader && m[k] == e[k])
+                        ++k;
+                    snprintf(buf, sizeof buf, "frame %zu: message header of packet %zu (message type 0x%02x): byte %zu on the wire is 0x%02x, the layout says 0x%02x", fi, it.packet, pk.msgType, k, m[k], e[k]);
+                    rep.v("C12", "C12:encoded-message-header-differs-from-layout", std::string(buf) + " wire=" + hex(m, wire::kMsgHeader, 16) + " layout=" + hex(e, 16));
+                }
+                if (frames[fi][1] != 0)
+                    rep.v("C12", "C12:encoded-frame-header-reserved-byte-not-zero", "frame " + std::to_string(fi) + ": reserved byte of the CMP header is " + std::to_string(frames[fi][1]));
+                rep.c.count("encoded_message_headers_compared_with_layout");
+            }
             off += wire::kMsgHeader + it.length;
         }
     }
@@ -1818,7 +1848,7 @@ void runHistory(Ctx& c, const std::vector<Op>& h, Rng& r)
 
 long countCases(Ctx& c)
 {
-    static const char* mine[] = {"C01", "C07", "C08", "C09", "C10"};
+    static const char* mine[] = {"C01", "C07", "C08", "C09", "C10", "C12"};
     bool ok = false;
     for (auto* m : mine)
         if (c.prop == m)
